@@ -983,3 +983,54 @@ Proof. vm_compute. reflexivity. Qed.
 Opaque python_identifier class_name.
 
 Print Assumptions enum_classes_distinct_or_shared.
+
+(* ================= (b') operation-level + path-item-level parameter lists ================= *)
+(* model_params2_distinct_quiet: whichever of the two lists are present, in whatever proportion the parameters are split between them:
+   if no error is returned and the last run of the last executed check was quiet, the python names of ALL parameters of the operation
+   are pairwise distinct and none is client / url *)
+Theorem model_params2_distinct_quiet prefix op item out :
+  model_params2 prefix op item = Ok out -> g_params2_quiet prefix op item = true ->
+  NoDup (map p_py out) /\ forall p, In p out -> reserved_param (p_py p) = false.
+Proof.
+  unfold model_params2, g_params2_quiet. destruct (params_phase1 prefix op) as [ps1|] eqn:E1; [|discriminate].
+  destruct item as [it|].
+  - intros H G. exact (params_distinct_quiet _ _ _ H G).
+  - intros [= <-] G. destruct op as [l|]; cbn [params_phase1] in E1.
+    + unfold model_params in E1. exact (params_distinct_quiet _ _ _ E1 G).
+    + injection E1 as <-. split; [constructor | intros p []].
+Qed.
+
+(* static guard: the python names entering the last check (those the first check left on the operation-level parameters, default names
+   for the path-item ones) are pairwise distinct: then only client / url are renamed by it and the result is pairwise distinct *)
+Theorem model_params2_distinct prefix op it ps1 out :
+  params_phase1 prefix op = Ok ps1 -> g_params_plain (phase2_input prefix ps1 it) = true ->
+  model_params2 prefix op (Some it) = Ok out ->
+  out = map (param_fix prefix) (phase2_input prefix ps1 it) /\ NoDup (map p_py out) /\
+  forall p, In p out -> reserved_param (p_py p) = false.
+Proof.
+  intros E1 G H. unfold model_params2 in H. rewrite E1 in H. exact (params_distinct _ _ _ G H).
+Qed.
+
+(* the parameters of the result are exactly the operation-level ones plus the path-item ones not shadowed by them *)
+Theorem model_params2_keys prefix op it ps1 out :
+  params_phase1 prefix op = Ok ps1 -> model_params2 prefix op (Some it) = Ok out ->
+  map param_key out = map param_key (phase2_input prefix ps1 it).
+Proof.
+  intros E1 H. unfold model_params2 in H. rewrite E1 in H. exact (check_params_keys _ _ _ H).
+Qed.
+
+Transparent python_identifier.
+(* non-vacuity: path item [header user_id] + operation [query userId, query limit]: the lone path-item parameter IS compared with the
+   operation-level ones (user_id_query, limit, user_id_header); a lone path-item parameter client / url is renamed *)
+Example model_params2_nonvacuous :
+  let uid := [117;115;101;114;95;105;100] in
+  param_pys (model_params2 [102;105;101;108;100;95] (Some [(LQuery, [117;115;101;114;73;100]); (LQuery, [108;105;109;105;116])]) (Some [(LHeader, uid)])) =
+    Ok [uid ++ [95;113;117;101;114;121]; [108;105;109;105;116]; uid ++ [95;104;101;97;100;101;114]] /\
+  g_params2_quiet [102;105;101;108;100;95] (Some [(LQuery, [117;115;101;114;73;100]); (LQuery, [108;105;109;105;116])]) (Some [(LHeader, uid)]) = true /\
+  param_pys (model_params2 [102;105;101;108;100;95] None (Some [(LQuery, s_client)])) = Ok [s_client ++ [95;113;117;101;114;121]] /\
+  param_pys (model_params2 [102;105;101;108;100;95] (Some [(LQuery, s_url)]) None) = Ok [s_url ++ [95;113;117;101;114;121]].
+Proof. vm_compute. repeat split; reflexivity. Qed.
+Opaque python_identifier.
+
+Print Assumptions model_params2_distinct_quiet.
+Print Assumptions model_params2_distinct.
